@@ -85,6 +85,9 @@ class Machine:
             data = self.bin.read(off, n)
             return BitVecVal(int.from_bytes(data, "little"), nbits)
         if reg == "consttab":
+            t = self._table_load(off, n, nbits)
+            if t is not None:
+                return t
             # symbolic index into a read-only table: enumerate the addresses feasible under the path condition
             from z3 import Solver, sat
             sv = Solver()
@@ -99,7 +102,7 @@ class Machine:
                 vals.append(v)
                 sv.add(off != v)
             if not vals or len(vals) > 128:
-                raise Unsupported("cannot resolve address %s" % off)
+                raise Unsupported("cannot resolve address %s" % str(off)[:200])
             res = None
             for v in vals:
                 if self.bin.writable(v):
@@ -110,6 +113,43 @@ class Machine:
         self.accesses.append(("load", reg, off, n))
         arr = self.mem[reg]
         bs = [Select(arr, off + k) for k in range(n)]
+        return simplify(Concat(*reversed(bs))) if n > 1 else bs[0]
+
+    def _table_load(self, addr, n, nbits):
+        """addr = C + zero_extend(byte expression): index a 256-entry read-only table held as a z3 array."""
+        from z3 import is_app_of, Z3_OP_BADD, K
+        if not is_app_of(addr, Z3_OP_BADD):
+            return None
+        consts = [c for c in addr.children() if is_bv_value(c)]
+        rest = [c for c in addr.children() if not is_bv_value(c)]
+        if len(consts) != 1 or len(rest) < 1:
+            return None
+        e = rest[0]
+        for x in rest[1:]:
+            e = e + x
+        e = simplify(e)
+        hi = simplify(Extract(63, 8, e))
+        if not (is_bv_value(hi) and hi.as_long() == 0):
+            return None
+        base = consts[0].as_long()
+        key = (base, n)
+        if not hasattr(self, "_tables"):
+            self._tables = {}
+        if key not in self._tables:
+            for v in (base, base + 255 + n - 1):
+                if self.bin.writable(v):
+                    raise Unsupported("load from writable global %x" % v)
+            arrs = []
+            for k in range(n):
+                arr = K(BitVecSort(8), BitVecVal(0, 8))
+                data = self.bin.read(base + k, 256)
+                for i in range(256):
+                    if data[i] != 0:
+                        arr = Store(arr, BitVecVal(i, 8), BitVecVal(data[i], 8))
+                arrs.append(arr)
+            self._tables[key] = arrs
+        idx = simplify(Extract(7, 0, e))
+        bs = [Select(a, idx) for a in self._tables[key]]
         return simplify(Concat(*reversed(bs))) if n > 1 else bs[0]
 
     def store(self, addr, val, nbits):
